@@ -9,6 +9,7 @@ import AM.Model.Conc
 import AM.Spec.AuditProc
 import AM.Model.Workers
 import AM.Model.Handoff
+import AM.Model.Daemon
 /-! `amdriver <mode> [property]`: runs the executable model on cases read from stdin, one per line,
 prints the model's canonical observation, the verdict of the property's executable `Spec` on it
 and — when the case carries the implementation's observation (`obs=`) — the verdict on that. -/
@@ -450,12 +451,33 @@ def handoffLine (f : List String) : String :=
     match (sess.splitOn ",").mapM parseSess with
     | none => s!"{id} !badcase"
     | some ss =>
-      let st0 : HO.St := { sshdTodo := ss.map hoLogin, auditTodo := ss.flatMap hoEvents }
-      let sched := (ss.flatMap fun _ => [HO.Act.sshdWrite, HO.Act.handoff]) ++ (ss.flatMap hoEvents).map fun _ => HO.Act.audit
-      let fin := HO.run st0 sched
+      -- the assembled daemon model (`AM.Model.Daemon`): the records the harness writes to the sshd
+      -- pipe go through `Sshd.process` (regenerated expressions), the audit records through the
+      -- audit-processor model with the tracker inside; canonical schedule (the compared observation
+      -- is the multiset of output lines, which does not depend on the schedule)
       let noise := ((kv rest "noise").bind String.toNat?).getD 0
-      -- failed logins of the noise stream: written by the sshd thread, never handed over
-      let items := fin.out.map hoItem ++ noiseItems noise
+      let per := if ss.isEmpty then 0 else noise / ss.length
+      let sshdMsg := fun (s : HSess) =>
+        let p := s.pid.toNat
+        strOf s!"Accepted publickey for user{p} from 10.0.{p / 250}.{p % 250} port {1024 + p % 60000} ssh2: ED25519 SHA256:abcdefghijklmnopqrstuvwxyz0123456789ABCDEFG"
+      let noiseMsg := fun (i : Nat) => strOf s!"Invalid user n{i} from 10.1.1.1 port {20000 + i}"
+      let idx := (List.range ss.length).zip ss
+      let sshdRecs : List (Str × Str × Bool) := idx.flatMap fun (i, s) =>
+        let lo := i * per
+        let hi := if i + 1 == ss.length then noise else (i + 1) * per
+        (strOf (toString s.pid), sshdMsg s, true) ::
+          ((List.range (hi - lo)).map fun j => (strOf "5", noiseMsg (lo + j), true))
+      let auditIns : List AP.In := (ss.flatMap hoEvents).map fun (e, _) =>
+        AP.In.line [] (some { seq := (e.ts - 1600000000).toNat, kind := .single, tag := 0, ts := e.ts, typ := e.typ,
+                              ses := e.ses, pidTok := e.pidTok, result := e.result, args := [] })
+      let st0 : Dm.St := { sshdTodo := sshdRecs, auditTodo := auditIns }
+      let sched := (sshdRecs.flatMap fun _ => [Dm.Act.sshdLine false, Dm.Act.handoff]) ++ auditIns.map fun _ => Dm.Act.audit
+      let fin := Dm.run sshdCfg {} st0 sched
+      let items := fin.out.map fun it => match it with
+        | .sshd e =>
+          if e.outcome == "succeeded" then "L:" ++ String.ofList ((aLookup "pid" e.subjects).getD [])
+          else "F:" ++ String.ofList ((aLookup "port" e.srcExtra).getD [])
+        | .action em => s!"A:{String.ofList em.ev.ses}:{em.ev.ts}"
       let sorted := (items.toArray.qsort (· < ·)).toList
       let obs := String.intercalate ";" ("T:0" :: sorted)
       let sp := specHandoff ss noise "0" items
